@@ -6,6 +6,23 @@ MODES = ['robsd', 'robsd-cross', 'robsd-ports', 'robsd-regress', 'canvas']
 SHIMS = os.path.join(common.VERIF, 'tools', 'shims')
 
 
+NAME_MAX = 255
+PATH_MAX = 4096
+
+
+def root_components(need):
+    """path components ('p' * k, k <= NAME_MAX) whose '/'-joined length is exactly need (>= 1): padding directories
+    that give a root a spelled length at a buffer boundary (254..256, 1023..1025, PATH_MAX - 1 - name)"""
+    comps = []
+    rem = need
+    while rem > NAME_MAX:
+        take = NAME_MAX if rem - NAME_MAX - 1 >= 1 else rem - 2
+        comps.append(take)
+        rem -= take + 1
+    comps.append(rem)
+    return ['p' * k for k in comps]
+
+
 def write_conf(path, mode, rootstr, aux, extra=''):
     """A minimal valid configuration per mode, as tests/util.sh robsd_config makes
     them.  rootstr is the robsddir exactly as it should be spelled in the file
@@ -84,4 +101,17 @@ def build_iv_driver(ctx):
         r = common.sh(['timeout', '900', 'make', '-j8'] + targets, cwd=common.COQ)
     if r.returncode != 0:
         raise common.BuildFailure('libraries of the iv driver do not build:\n' + r.stdout[-1500:])
-    return ctx.build_driver('iv')
+    return big_stack(ctx.build_driver('iv'))
+
+
+def big_stack(drv):
+    """the extracted model is a list program (getlines, ++ and map are not tail recursive in the extracted OCaml): a
+    listing of 65 paths of PATH_MAX - 1 bytes, or a tree with a 64 KiB file, overflows the default 8 MiB stack.  The
+    driver is started without a stack limit (same wrapper as rp_common.big_stack)."""
+    w = drv + '.sh'
+    text = '#!/bin/sh\nulimit -s unlimited 2>/dev/null || ulimit -s $(ulimit -Hs)\nexec "%s" "$@"\n' % drv
+    if not os.path.exists(w) or open(w).read() != text:
+        open(w + '.tmp', 'w').write(text)
+        os.chmod(w + '.tmp', 0o755)
+        os.rename(w + '.tmp', w)
+    return w
